@@ -1,4 +1,5 @@
 from typing import Any
+import numpy as np
 from synapgrad.tensor import Tensor
 from synapgrad import cpu_ops
 from synapgrad.device import Device
@@ -241,6 +242,7 @@ def pow(x:Tensor, n:'int | float'):
 
     if not isinstance(n, (int, float)):
         raise ValueError(f"Power of type '{type(n)}' not supported. Only int and float are supported.")
+    if isinstance(n, np.generic): n = n.item() # a NumPy scalar (np.float64 is a float) must not promote the tensor's dtype
     
     if x.device == Device.CPU:
         out_data = cpu_ops.pow_forward(x.data, n)
@@ -279,6 +281,7 @@ def rpow(x:Tensor, n:'int | float'):
     
     if not isinstance(n, (int, float)):
         raise ValueError(f"Power of type '{type(n)}' not supported. Only int and float are supported.")
+    if isinstance(n, np.generic): n = n.item() # a NumPy scalar (np.float64 is a float) must not promote the tensor's dtype
     
     if x.device == Device.CPU:
         out_data = cpu_ops.rpow_forward(x.data, n)
